@@ -146,6 +146,13 @@ int main(int argc, char** argv) {
         // the path-based writer of the cell-data file, called the way a user calls it (its default arguments), FIRST -- on the cells as
         // they are, unused slots included; what the reader returns for its file is compared below with what it returns for the file of
         // mesh_writer::write
+        // ... and, before anything has compacted the cells, the same writer with compaction switched off (its documented third
+        // argument): the file then lists every node slot, the faces reference a non-contiguous subset of a cell's points, and the
+        // reader has to return the same tissue all the same ("cells with unused slots before compaction")
+        const std::string npath = work + "/ncell_" + std::to_string(C["k"].i()) + ".vtk";
+        std::string nerr; std::vector<mesh> nmeshes;
+        try { mesh_writer::write_cell_data_file(npath, L, false); mesh_reader nr(npath, false); nmeshes = nr.read(); } catch (std::exception& e) { nerr = e.what(); }
+        std::remove(npath.c_str());
         const std::string ppath = work + "/pcell_" + std::to_string(C["k"].i()) + ".vtk";
         std::string perr; std::vector<mesh> pmeshes; std::vector<short> ptypes;
         // (this writer does not add the cell_type_id array unless asked to: only the geometry is compared)
@@ -165,7 +172,11 @@ int main(int argc, char** argv) {
             for (size_t q = 0; path_same && q < meshes.size(); q++)
                 if (pmeshes[q].node_pos_lst != meshes[q].node_pos_lst || pmeshes[q].face_point_ids != meshes[q].face_point_ids) path_same = false;
             if (getenv("VDBG")) fprintf(stderr, "perr='%s' sizes %zu %zu types %zu %zu\n", perr.c_str(), pmeshes.size(), meshes.size(), ptypes.size(), types.size());
-            o.key("ok").b(true).key("path_same").b(path_same).key("types").iarr(types);
+            bool norebase_same = nerr.empty() && nmeshes.size() == meshes.size();
+            for (size_t q = 0; norebase_same && q < meshes.size(); q++)
+                if (nmeshes[q].node_pos_lst != meshes[q].node_pos_lst || nmeshes[q].face_point_ids != meshes[q].face_point_ids) norebase_same = false;
+            if (getenv("VDBG")) fprintf(stderr, "nerr='%s' sizes %zu %zu same %d\n", nerr.c_str(), nmeshes.size(), meshes.size(), (int)norebase_same);
+            o.key("ok").b(true).key("path_same").b(path_same).key("norebase_same").b(norebase_same).key("types").iarr(types);
             o.key("cells").arr();
             for (auto& mm : meshes) {
                 o.obj().key("nodes").darr(mm.node_pos_lst);
@@ -174,7 +185,7 @@ int main(int argc, char** argv) {
                 o.end_arr().end_obj();
             }
             o.end_arr();
-        } catch (std::exception& e) { o.key("ok").b(false).key("path_same").b(true).key("err").str(e.what()).key("types").arr().end_arr().key("cells").arr().end_arr(); }
+        } catch (std::exception& e) { o.key("ok").b(false).key("path_same").b(true).key("norebase_same").b(true).key("err").str(e.what()).key("types").arr().end_arr().key("cells").arr().end_arr(); }
         o.end_obj();
         o.end_obj();
         fprintf(fo, "%s\n", o.text().c_str());
